@@ -291,4 +291,19 @@ PROPS = {
                         "pre-push hook invocation (needs a remote) is not driven; the stage filter is exercised by hooks declared for pre-push only",
                         "memory exhaustion (string doubling) is outside the property and not generated"],
     },
+    "C08": {
+        "test": "TestC08",
+        "lean_modules": ["Gittuf.Props.C08"],
+        "n": {"quick": 6, "thorough": 150},
+        "min_per_shard": 2,
+        "rule": "histories as for C01 (key-disjoint principals); each is verified by the real verifier (full / latest-only / from-entry for "
+                "every reference) under the cache configurations: no cache; no cache, repeated in reverse order; cache populated at the "
+                "tip; the same repeated in reverse order (checkpoints written by the first pass); cache populated when the log had k+1 "
+                "entries for up to 3 random k; populated at k then advanced by verifications run when the log had k2+1 entries. For "
+                "every configuration all references are listed before and after (only the cache reference may change). Every verdict "
+                "of every configuration is compared with the Lean model of the cache (index, searcher, checkpoints) and with the "
+                "cache-less verdict. non-trivial / distinct as for C01; one case = one history x ~8 configurations x ~6-9 queries.",
+        "trusted_base": COMMON_TB,
+        "assumptions": ["the process-wide RSL entry cache is reset through the verif hook before each history", "VerifyMergeable under cache configurations is not run"],
+    },
 }
